@@ -8,6 +8,7 @@ chain in the source re-runs these proofs against the new chain.
 -/
 import TddaVerif.Model.Csvw
 import TddaVerif.Generated.Csvw
+import TddaVerif.Lemmas.CsvwDialect
 
 namespace TddaVerif.Props.C16
 open TddaVerif.Py TddaVerif.Csvw
@@ -135,6 +136,36 @@ theorem dtype_table :
 /-- every CSVW datatype in the table maps to some pandas dtype (no dangling metadata type) -/
 theorem dtype_table_total : csvwTypeToMtype.all (fun kv => (lookup mtypeToPandas kv.2).isSome) = true := by
   decide
+
+/-! ### header row (Model/CsvwDialect.lean) -/
+open TddaVerif.CsvwDialect in
+/-- the file is read without a header row exactly when the dialect says `header: false` (or 0) or `headerRowCount: 0` -/
+theorem headerless_iff (h c : JV) : headerless h c = true ↔ (h.eqZero = true ∨ c.eqZero = true) :=
+  CsvwDialect.Lemmas.headerless_iff h c
+
+open TddaVerif.CsvwDialect in
+/-- each of the three ways a dialect declares a header-less file works, whatever else it says about the other key -/
+theorem declared_headerless (names : List (List Char)) :
+    (∀ c, headerKw (.bool false) c names = some names) ∧ (∀ h, headerKw h (.num 0) names = some names) := by
+  constructor
+  · intro c; rw [CsvwDialect.Lemmas.headerKw_names]; rfl
+  · intro h; rw [CsvwDialect.Lemmas.headerKw_names]; cases h <;> simp [JV.eqZero]
+
+open TddaVerif.CsvwDialect in
+/-- and a dialect that does not say so (no dialect, `header: true`, a positive count) keeps the header row -/
+theorem default_has_header (names : List (List Char)) (n : Nat) :
+    headerKw .absent .absent names = none ∧ headerKw (.bool true) .absent names = none ∧
+    headerKw .absent (.num (n + 1)) names = none ∧ headerKw (.bool true) (.num (n + 1)) names = none := by
+  refine ⟨rfl, rfl, ?_, ?_⟩ <;> rw [CsvwDialect.Lemmas.headerKw_names] <;> rfl
+
+/-- **tie.** The expression process_dialect assigns to `header_rows`, the dialect keys its names were read from and the
+    test to_pandas_read_csv_args makes on it are the ones the model translates (regenerated from csvw.py / pandasio.py
+    on every run) -/
+theorem tie_header_rule :
+    TddaVerif.Generated.Csvw.headerRowsExpr = "0 if header == False else nvl(header_rows, 1)".toList ∧
+    TddaVerif.Generated.Csvw.headerRowsKeys
+      = [("header".toList, "header".toList), ("header_rows".toList, "headerRowCount".toList)] ∧
+    TddaVerif.Generated.Csvw.headerRowsTests = ["md.header_rows == 0".toList] := by decide
 
 /- non-vacuity: a concrete separated pattern and its translation -/
 example : render .dd [(.slash, .MM), (.slash, .yyyy), (.space, .HH), (.colon, .mm)]
